@@ -45,6 +45,56 @@ impl P {
 	}
 }
 
+/// How the input reaches the parser and where its output goes (fault set (i)): the behaviours `std::io::Read` /
+/// `Write` allow besides "everything at once".
+#[derive(Clone, Copy, Debug, PartialEq, Eq)]
+pub enum Env {
+	/// a cursor over the whole input, an unbounded vector for the output
+	Plain,
+	/// `read` serves at most this many bytes per call
+	Chunk(u32),
+	/// every `read` is first refused with `ErrorKind::Interrupted`, then serves at most this many bytes
+	Interrupted(u32),
+	/// `read` serves the input up to this byte offset and fails with an I/O error from there on
+	FailAt(u32),
+	/// (class) the class is read from a cursor; `write` accepts this many bytes in total and then fails with an I/O error
+	WriterFailAt(u32),
+	/// (class) `write` accepts at most this many bytes per call
+	WriterChunk(u32),
+}
+
+impl Env {
+	pub fn encode(self) -> (u8, u32) {
+		match self {
+			Env::Plain => (0, 0),
+			Env::Chunk(k) => (1, k),
+			Env::Interrupted(k) => (2, k),
+			Env::FailAt(n) => (3, n),
+			Env::WriterFailAt(n) => (4, n),
+			Env::WriterChunk(k) => (5, k),
+		}
+	}
+	pub fn decode(kind: u8, v: u32) -> Option<Env> {
+		Some(match kind {
+			0 => Env::Plain,
+			1 => Env::Chunk(v),
+			2 => Env::Interrupted(v),
+			3 => Env::FailAt(v),
+			4 => Env::WriterFailAt(v),
+			5 => Env::WriterChunk(v),
+			_ => return None,
+		})
+	}
+	pub fn text(self) -> String {
+		let (k, v) = self.encode();
+		format!("{k}:{v}")
+	}
+	pub fn from_text(s: &str) -> Option<Env> {
+		let (k, v) = s.split_once(':')?;
+		Env::decode(k.parse().ok()?, v.parse().ok()?)
+	}
+}
+
 pub const FIELD_VALUES: [u64; 11] = [0, 1, 0x7f, 0x80, 0xff, 0x7fff, 0x8000, 0xffff, 0x7fff_ffff, 0x8000_0000, 0xffff_ffff];
 
 fn read_be(b: &[u8], e: &FieldMapEntry) -> u64 {
@@ -249,7 +299,8 @@ enum Kind {
 	Trunc { seed: Vec<u8> },
 	TextTrunc { p: P, seed: Vec<u8> },
 	Pairs { seed: ClassSeed, pairs: Vec<(u32, u64, u32, u64)>, capped_structures: usize, structures: usize },
-	Adversaries(Vec<adversaries::Adversary>),
+	/// (the adversaries, cost of one case for batching)
+	Adversaries(Vec<adversaries::Adversary>, u64),
 	InsnCut(Vec<(String, Vec<u8>)>),
 	Seeds(Vec<(String, P, Vec<u8>)>),
 	Lines { p: P, alphabet: Vec<Vec<u8>>, min_len: usize, max_len: usize, with_header: bool },
@@ -261,9 +312,93 @@ enum Kind {
 	/// every single byte of a class seed set to each of its byte fault values
 	ClassBytes { seed: Vec<u8>, faults: Vec<(u32, u8)> },
 	/// the contents of every Utf8 constant of a class seed replaced (length field adjusted) by every string of a list
-	Utf8 { seed: ClassSeed, entries: Vec<u32>, repl: Vec<Vec<u8>> },
+	/// `fault`: bytes (offset in the seed, value) set after the replacement, so that something behind the pool fails and
+	/// the reader builds the error contexts that quote names and descriptors
+	Utf8 { seed: ClassSeed, entries: Vec<u32>, repl: Vec<Vec<u8>>, fault: Vec<(usize, u8)> },
 	Desc { p: P, alphabet: Vec<Vec<u8>>, max_len: usize },
-	File { p: P, input: Vec<u8> },
+	/// every attribute of a class seed duplicated in place / duplicated at the end of its list / deleted / swapped with its successor
+	AttrOps { seed: ClassSeed, ops: Vec<AttrOp> },
+	/// every padded text (k ASCII letters and one multi-byte character, for every k) in every cell of a text seed, the line as it is and indented too deep
+	Pad { p: P, seed: Vec<u8>, cells: Vec<(usize, usize)>, pads: Vec<Vec<u8>>, variants: usize },
+	/// every padded text in the slot of every template (error situations that quote the text)
+	Templates { p: P, templates: Vec<Vec<u8>>, pads: Vec<Vec<u8>> },
+	/// a seed through every scripted reader / writer behaviour, and every prefix of it through the short-serving readers
+	Envs { p: P, seed: Vec<u8>, envs: Vec<Env>, trunc_envs: Vec<Env> },
+	File { p: P, env: Env, input: Vec<u8> },
+}
+
+/// one structural edit of the attribute lists of a class seed; all patched fields lie before the edited bytes
+#[derive(Clone, Debug)]
+pub struct AttrOp {
+	pub what: &'static str,
+	pub name: String,
+	pub at: usize,
+	/// the bytes start..end are replaced by `with`
+	start: usize,
+	end: usize,
+	with: Vec<u8>,
+	/// (offset, width, signed delta) of the count and the attribute_length fields to adjust
+	patches: Vec<(usize, u8, i64)>,
+}
+
+fn attr_ops(seed: &ClassSeed) -> Vec<AttrOp> {
+	let spans = &seed.parsed.attribute_spans;
+	let b = &seed.bytes;
+	let mut out = Vec::new();
+	for s in spans {
+		let end = s.start + s.len;
+		// the list this attribute stands in: contiguous attributes of the same depth
+		let mut first = s;
+		while let Some(p) = spans.iter().find(|p| p.depth == first.depth && p.start + p.len == first.start) {
+			first = p;
+		}
+		let mut last = s;
+		while let Some(n) = spans.iter().find(|n| n.depth == last.depth && n.start == last.start + last.len) {
+			last = n;
+		}
+		let Some(count_at) = first.start.checked_sub(2) else { continue };
+		if !seed.parsed.map.iter().any(|e| e.offset == count_at && e.width == 2 && e.role == Role::Count) {
+			continue;
+		}
+		let enclosing: Vec<usize> = spans.iter().filter(|e| e.depth < s.depth && e.start < s.start && e.start + e.len >= end).map(|e| e.start + 2).collect();
+		let patches = |delta_count: i64, delta_len: i64| {
+			let mut v = vec![(count_at, 2u8, delta_count)];
+			v.extend(enclosing.iter().map(|o| (*o, 4u8, delta_len)));
+			v
+		};
+		let me = b[s.start..end].to_vec();
+		let op = |what: &'static str, start: usize, end: usize, with: Vec<u8>, patches: Vec<(usize, u8, i64)>| AttrOp { what, name: s.name.clone(), at: s.start, start, end, with, patches };
+		out.push(op("duplicated in place", end, end, me.clone(), patches(1, s.len as i64)));
+		if last.start != s.start {
+			let le = last.start + last.len;
+			out.push(op("duplicated at the end of its list", le, le, me.clone(), patches(1, s.len as i64)));
+		}
+		if first.start != s.start {
+			out.push(op("duplicated at the start of its list", first.start, first.start, me.clone(), patches(1, s.len as i64)));
+		}
+		out.push(op("deleted", s.start, end, Vec::new(), patches(-1, -(s.len as i64))));
+		if let Some(n) = spans.iter().find(|n| n.depth == s.depth && n.start == end) {
+			let mut w = b[n.start..n.start + n.len].to_vec();
+			w.extend_from_slice(&me);
+			out.push(op("swapped with the next one", s.start, n.start + n.len, w, Vec::new()));
+		}
+	}
+	out
+}
+
+impl AttrOp {
+	fn apply(&self, seed: &[u8]) -> Vec<u8> {
+		let mut b = Vec::with_capacity(seed.len() + self.with.len());
+		b.extend_from_slice(&seed[..self.start]);
+		b.extend_from_slice(&self.with);
+		b.extend_from_slice(&seed[self.end..]);
+		for &(off, width, delta) in &self.patches {
+			let e = FieldMapEntry { offset: off, width, role: Role::Other };
+			let v = (read_be(&b, &e) as i64 + delta) as u64;
+			write_be(&mut b, &e, v);
+		}
+		b
+	}
 }
 
 #[derive(Clone, Copy, Debug)]
@@ -271,6 +406,14 @@ enum Edit {
 	Delete,
 	Insert(usize),
 	Replace(usize),
+}
+
+/// short description of a padded text
+fn pad_name(p: &[u8]) -> String {
+	let k = p.iter().filter(|b| **b == b'a').count();
+	let rest: Vec<u8> = p.iter().copied().filter(|b| *b != b'a').collect();
+	let first = p.first() != Some(&b'a') && k > 0;
+	if first { format!("the character {:02x?} and {k} letters", rest) } else { format!("{k} letters and the character {:02x?}", rest) }
 }
 
 pub struct Space {
@@ -322,6 +465,40 @@ pub fn class_seed_names(thorough: bool) -> Vec<String> {
 		}
 	} else {
 		v.extend(["ks0e0", "ks1e0", "ks2e2", "mod02", "mod11"].map(String::from));
+	}
+	v
+}
+
+/// class seeds whose Utf8 constants get every padded text (quick: one generated and one compiled class)
+pub fn pad_seed_names(thorough: bool) -> Vec<String> {
+	let mut v: Vec<String> = vec!["ks0e0".into(), "utf9".into()];
+	let corpus = corpus_seed_names(false);
+	v.extend(corpus.iter().take(if thorough { corpus.len() } else { 1 }).cloned());
+	if thorough {
+		v.extend(["ks1e0", "ks2e2", "mod02", "cldc"].map(String::from));
+	}
+	v
+}
+
+/// (fault, seed) of the padded texts with a fault behind the pool
+pub fn faulted_pad_seeds(thorough: bool) -> Vec<(&'static str, String)> {
+	let lambda = "corpus:main/corpus/lambda/Lambdas$Sup.class".to_owned();
+	let mut v = vec![("code", lambda.clone()), ("bsmarg", lambda), ("constvalue", "corpus:main/corpus/misc/Misc$Child.class".to_owned())];
+	if thorough {
+		for f in ["code", "bsmarg", "constvalue"] {
+			v.push((f, "ks0e0".to_owned()));
+		}
+	}
+	v
+}
+
+/// class seeds driven through every scripted reader and writer behaviour
+pub fn env_seed_names(thorough: bool) -> Vec<String> {
+	let mut v: Vec<String> = vec!["cldc".into(), "mod02".into(), "ks0e0".into()];
+	let corpus = corpus_seed_names(false);
+	v.extend(corpus.iter().take(if thorough { corpus.len() } else { 2 }).cloned());
+	if thorough {
+		v.extend(["ks1e0", "ks2e2", "utf9"].map(String::from));
 	}
 	v
 }
@@ -403,7 +580,37 @@ impl Space {
 				}
 				Kind::Pairs { seed, pairs, capped_structures: capped, structures: groups.len() }
 			},
-			"adversaries" => Kind::Adversaries(adversaries::adversaries(thorough)),
+			"adversaries" => Kind::Adversaries(adversaries::adversaries(thorough), 4_000_000),
+			"boundaries" => Kind::Adversaries(adversaries::boundary_adversaries(), 40_000),
+			"attrops" => {
+				let seed = class_seed(rest)?;
+				let ops = attr_ops(&seed);
+				Kind::AttrOps { seed, ops }
+			},
+			"pad" => {
+				let (pn, k) = rest.rsplit_once(':').ok_or("bad pad spec")?;
+				let p = P::from_name(pn).ok_or("bad parser")?;
+				let seed = texts::seeds(p).into_iter().nth(k.parse().map_err(|_| "bad seed number")?).ok_or("no such seed")?;
+				let cells = texts::cells(p, &seed);
+				Kind::Pad { p, seed, cells, pads: texts::pad_strings(false), variants: if p == P::Nests { 1 } else { 2 } }
+			},
+			"tmpl" => {
+				let p = P::from_name(rest).ok_or("bad parser")?;
+				Kind::Templates { p, templates: texts::templates(p), pads: texts::pad_strings(false) }
+			},
+			"env" => {
+				let (pn, sn) = rest.split_once('|').ok_or("bad env spec")?;
+				let p = P::from_name(pn).ok_or("bad parser")?;
+				let seed = if p == P::Class { class_seed(sn)?.bytes } else { texts::seeds(p).into_iter().nth(sn.parse().map_err(|_| "bad seed number")?).ok_or("no such seed")? };
+				let n = seed.len() as u32;
+				let mut envs = vec![Env::Chunk(1), Env::Chunk(2), Env::Chunk(3), Env::Chunk(7), Env::Interrupted(1), Env::Interrupted(4), Env::Interrupted(u32::MAX)];
+				envs.extend((0..=n).map(Env::FailAt));
+				if p == P::Class {
+					envs.extend([Env::WriterChunk(1), Env::WriterChunk(3)]);
+					envs.extend((0..=n + 512).map(Env::WriterFailAt));
+				}
+				Kind::Envs { p, seed, envs, trunc_envs: vec![Env::Chunk(1), Env::Interrupted(3)] }
+			},
 			"insncut" => Kind::InsnCut(adversaries::insn_cut_cases()),
 			"seeds" => {
 				let mut v = Vec::new();
@@ -460,16 +667,40 @@ impl Space {
 				}
 				Kind::ClassBytes { seed, faults }
 			},
-			"utf8" | "utf8s" => {
+			"utf8" | "utf8s" | "utf8pad" | "utf8padf" => {
+				// utf8padf:<fault>:<seed>
+				let (fault_name, rest) = if head == "utf8padf" { rest.split_once(':').ok_or("bad utf8padf spec")? } else { ("", rest) };
 				let seed = class_seed(rest)?;
+				let span_body = |name: &str| seed.parsed.attribute_spans.iter().find(|a| a.name == name).map(|a| a.start + 6).ok_or(format!("seed {rest} has no {name} attribute"));
+				let fault: Vec<(usize, u8)> = match fault_name {
+					"" => Vec::new(),
+					// an opcode that does not exist, as the first instruction of the first method with code
+					"code" => vec![(seed.parsed.map.iter().find(|e| e.role == Role::Opcode).ok_or("seed without code")?.offset, 0xfe)],
+					// a constant value index outside the pool
+					"constvalue" => {
+						let b = span_body("ConstantValue")?;
+						vec![(b, 0xff), (b + 1, 0xff)]
+					},
+					// the first argument of the first bootstrap method: an index outside the pool
+					"bsmarg" => {
+						let b = span_body("BootstrapMethods")?;
+						if seed.bytes.get(b + 4..b + 6) == Some(&[0, 0]) || seed.bytes.len() < b + 8 {
+							return Err(format!("the first bootstrap method of seed {rest} has no argument"));
+						}
+						vec![(b + 6, 0xff), (b + 7, 0xff)]
+					},
+					other => return Err(format!("unknown fault {other}")),
+				};
 				let entries: Vec<u32> = seed.parsed.map.iter().enumerate().filter(|(_, e)| e.role == Role::Utf8Length).map(|(i, _)| i as u32).collect();
 				let repl = if head == "utf8" {
 					adversaries::class_strings()
+				} else if head == "utf8pad" || head == "utf8padf" {
+					texts::pad_strings(true)
 				} else {
 					let alphabet = adversaries::class_char_alphabet();
 					(0..count_between(alphabet.len(), 0, 2)).map(|i| symbols_nth(&alphabet, 0, 2, i)).collect()
 				};
-				Kind::Utf8 { seed, entries, repl }
+				Kind::Utf8 { seed, entries, repl, fault }
 			},
 			"tokens" => {
 				let (pn, k) = rest.rsplit_once(':').ok_or("bad tokens spec")?;
@@ -488,8 +719,12 @@ impl Space {
 			},
 			"file" => {
 				let b = std::fs::read(Path::new(rest)).map_err(|e| format!("{rest}: {e}"))?;
-				let p = *PARSERS.get(*b.first().ok_or("empty case file")? as usize).ok_or("bad parser id")?;
-				Kind::File { p, input: b[1..].to_vec() }
+				if b.len() < 6 {
+					return Err("short case file".into());
+				}
+				let p = *PARSERS.get(b[0] as usize).ok_or("bad parser id")?;
+				let env = Env::decode(b[1], u32::from_be_bytes([b[2], b[3], b[4], b[5]])).ok_or("bad environment")?;
+				Kind::File { p, env, input: b[6..].to_vec() }
 			},
 			_ => return Err(format!("unknown space {spec}")),
 		};
@@ -501,7 +736,11 @@ impl Space {
 			Kind::Fields { faults, .. } => faults.len() as u64,
 			Kind::Trunc { seed } | Kind::TextTrunc { seed, .. } => seed.len() as u64,
 			Kind::Pairs { pairs, .. } => pairs.len() as u64,
-			Kind::Adversaries(v) => v.len() as u64,
+			Kind::Adversaries(v, _) => v.len() as u64,
+			Kind::AttrOps { ops, .. } => ops.len() as u64,
+			Kind::Pad { cells, pads, variants, .. } => (cells.len() * pads.len() * variants) as u64,
+			Kind::Templates { templates, pads, .. } => (templates.len() * pads.len()) as u64,
+			Kind::Envs { seed, envs, trunc_envs, .. } => (envs.len() + trunc_envs.len() * seed.len()) as u64,
 			Kind::InsnCut(v) => v.len() as u64,
 			Kind::Seeds(v) => v.len() as u64,
 			Kind::Lines { alphabet, min_len, max_len, .. } => count_between(alphabet.len(), *min_len, *max_len),
@@ -521,7 +760,10 @@ impl Space {
 			Kind::Fields { .. } => "(a) field-map boundary values",
 			Kind::Trunc { .. } | Kind::TextTrunc { .. } => "(b) truncation at every byte",
 			Kind::Pairs { .. } => "(c) pairs of field faults within one structure",
-			Kind::Adversaries(_) => "(d) hand-built adversaries",
+			Kind::Adversaries(_, _) => "(d) hand-built adversaries",
+			Kind::AttrOps { .. } => "(j) attributes duplicated, deleted, swapped",
+			Kind::Pad { .. } | Kind::Templates { .. } => "(h) long texts with a multi-byte character at every offset",
+			Kind::Envs { .. } => "(i) scripted readers and writers",
 			Kind::InsnCut(_) => "(d) last instruction cut short",
 			Kind::Seeds(_) => "unmodified seeds",
 			Kind::Lines { .. } => "(e) line sequences",
@@ -539,18 +781,23 @@ impl Space {
 		match &self.kind {
 			Kind::Pairs { capped_structures, structures, .. } => Some(vcore::json!({"structures": structures, "structures_over_candidate_cap": capped_structures})),
 			Kind::Fields { seed, .. } => Some(vcore::json!({"field_map_entries": seed.parsed.map.len(), "seed_bytes": seed.bytes.len()})),
-			Kind::Utf8 { entries, repl, .. } => Some(vcore::json!({"utf8_entries": entries.len(), "replacements": repl.len()})),
+			Kind::Utf8 { entries, repl, fault, .. } => Some(vcore::json!({"utf8_entries": entries.len(), "replacements": repl.len(), "bytes_faulted_behind_the_pool": fault.len()})),
 			Kind::Chars { cells, alphabet, min_len, max_len, .. } => Some(vcore::json!({"cells": cells.len(), "characters": alphabet.len(), "min_len": min_len, "max_len": max_len})),
 			Kind::ClassBytes { seed, .. } => Some(vcore::json!({"byte_positions": seed.len()})),
 			Kind::TextEdits { seed, symbols, .. } => Some(vcore::json!({"edit_positions": seed.len(), "symbols": symbols.len()})),
+			Kind::AttrOps { seed, ops } => Some(vcore::json!({"attributes": seed.parsed.attribute_spans.len(), "edits": ops.len()})),
+			Kind::Pad { cells, pads, variants, .. } => Some(vcore::json!({"cells": cells.len(), "padded_texts": pads.len(), "line_variants": variants})),
+			Kind::Templates { templates, pads, .. } => Some(vcore::json!({"templates": templates.len(), "padded_texts": pads.len()})),
+			Kind::Envs { seed, envs, trunc_envs, .. } => Some(vcore::json!({"seed_bytes": seed.len(), "behaviours_on_the_whole_seed": envs.len(), "behaviours_on_every_prefix": trunc_envs.len()})),
 			_ => None,
 		}
 	}
 
 	pub fn parser(&self, i: u64) -> P {
 		match &self.kind {
-			Kind::Fields { .. } | Kind::Trunc { .. } | Kind::Pairs { .. } | Kind::InsnCut(_) | Kind::ClassBytes { .. } | Kind::Utf8 { .. } => P::Class,
-			Kind::Adversaries(v) => v[i as usize].parser,
+			Kind::Fields { .. } | Kind::Trunc { .. } | Kind::Pairs { .. } | Kind::InsnCut(_) | Kind::ClassBytes { .. } | Kind::Utf8 { .. } | Kind::AttrOps { .. } => P::Class,
+			Kind::Adversaries(v, _) => v[i as usize].parser,
+			Kind::Pad { p, .. } | Kind::Templates { p, .. } | Kind::Envs { p, .. } => *p,
 			Kind::Seeds(v) => v[i as usize].1,
 			Kind::Lines { p, .. } | Kind::Tokens { p, .. } | Kind::Desc { p, .. } | Kind::File { p, .. } | Kind::TextTrunc { p, .. } | Kind::Chars { p, .. } | Kind::TextEdits { p, .. } => *p,
 		}
@@ -572,7 +819,31 @@ impl Space {
 				write_be(&mut b, &seed.parsed.map[b2 as usize], vb);
 				b
 			},
-			Kind::Adversaries(v) => (v[i as usize].build)(),
+			Kind::Adversaries(v, _) => (v[i as usize].build)(),
+			Kind::AttrOps { seed, ops } => ops[i as usize].apply(&seed.bytes),
+			Kind::Pad { seed, cells, pads, variants, .. } => {
+				let (c, r, variant) = self.pad_of(pads.len(), *variants, i);
+				let (s, e) = cells[c];
+				let line_start = seed[..s].iter().rposition(|x| *x == b'\n').map(|x| x + 1).unwrap_or(0);
+				let mut b = Vec::with_capacity(seed.len() + pads[r].len() + 8);
+				b.extend_from_slice(&seed[..line_start]);
+				if variant == 1 {
+					b.extend_from_slice(b"\t\t\t\t\t\t\t");
+				}
+				b.extend_from_slice(&seed[line_start..s]);
+				b.extend_from_slice(&pads[r]);
+				b.extend_from_slice(&seed[e..]);
+				b
+			},
+			Kind::Templates { templates, pads, .. } => texts::fill(&templates[i as usize / pads.len()], &pads[i as usize % pads.len()]),
+			Kind::Envs { seed, envs, trunc_envs, .. } => {
+				if (i as usize) < envs.len() {
+					seed.clone()
+				} else {
+					let k = i as usize - envs.len();
+					seed[..k / trunc_envs.len()].to_vec()
+				}
+			},
 			Kind::InsnCut(v) => v[i as usize].1.clone(),
 			Kind::Seeds(v) => v[i as usize].2.clone(),
 			Kind::Lines { alphabet, min_len, max_len, with_header, p } => {
@@ -632,7 +903,7 @@ impl Space {
 				b[pos as usize] = v;
 				b
 			},
-			Kind::Utf8 { seed, entries, repl } => {
+			Kind::Utf8 { seed, entries, repl, fault } => {
 				let (c, r) = (i as usize / repl.len(), i as usize % repl.len());
 				let e = &seed.parsed.map[entries[c] as usize];
 				let old = read_be(&seed.bytes, e) as usize;
@@ -642,10 +913,36 @@ impl Space {
 				b.extend_from_slice(&(rep.len() as u16).to_be_bytes());
 				b.extend_from_slice(rep);
 				b.extend_from_slice(&seed.bytes[e.offset + 2 + old..]);
+				for &(off, v) in fault {
+					// everything faulted lies behind the constant pool, so it has moved with the replacement
+					let at = if off > e.offset { off + rep.len() - old } else { off };
+					b[at] = v;
+				}
 				b
 			},
 			Kind::Desc { alphabet, max_len, .. } => symbols_nth(alphabet, 0, *max_len, i),
 			Kind::File { input, .. } => input.clone(),
+		}
+	}
+
+	/// (cell, padded text, line variant) of case `i` of a pad space
+	fn pad_of(&self, pads: usize, variants: usize, i: u64) -> (usize, usize, usize) {
+		let i = i as usize;
+		(i / (pads * variants), (i / variants) % pads, i % variants)
+	}
+
+	/// how the input of case `i` is served to the parser
+	pub fn env(&self, i: u64) -> Env {
+		match &self.kind {
+			Kind::Envs { envs, trunc_envs, .. } => {
+				if (i as usize) < envs.len() {
+					envs[i as usize]
+				} else {
+					trunc_envs[(i as usize - envs.len()) % trunc_envs.len()]
+				}
+			},
+			Kind::File { env, .. } => *env,
+			_ => Env::Plain,
 		}
 	}
 
@@ -683,7 +980,25 @@ impl Space {
 				let (ma, mb) = (&seed.parsed.map[a as usize], &seed.parsed.map[b as usize]);
 				format!("{}: {:?}@{} {:#x} -> {:#x} and {:?}@{} {:#x} -> {:#x}", self.spec, ma.role, ma.offset, read_be(&seed.bytes, ma), va, mb.role, mb.offset, read_be(&seed.bytes, mb), vb)
 			},
-			Kind::Adversaries(v) => format!("adversary {}", v[i as usize].name),
+			Kind::Adversaries(v, _) => format!("adversary {}", v[i as usize].name),
+			Kind::AttrOps { ops, .. } => {
+				let o = &ops[i as usize];
+				format!("{}: attribute {} at offset {} {}", self.spec, o.name, o.at, o.what)
+			},
+			Kind::Pad { seed, cells, pads, variants, .. } => {
+				let (c, r, variant) = self.pad_of(pads.len(), *variants, i);
+				let (s, e) = cells[c];
+				format!("{}: cell {} ({:?} at bytes {}..{}) replaced by {}{}", self.spec, c, String::from_utf8_lossy(&seed[s..e]), s, e, pad_name(&pads[r]), if variant == 1 { ", its line indented by 7 more tabs" } else { "" })
+			},
+			Kind::Templates { templates, pads, .. } => format!("{}: template {:?} filled with {}", self.spec, String::from_utf8_lossy(&templates[i as usize / pads.len()]), pad_name(&pads[i as usize % pads.len()])),
+			Kind::Envs { seed, envs, trunc_envs, .. } => {
+				if (i as usize) < envs.len() {
+					format!("{}: the whole seed, {:?}", self.spec, envs[i as usize])
+				} else {
+					let k = i as usize - envs.len();
+					format!("{}: first {} of {} bytes, {:?}", self.spec, k / trunc_envs.len(), seed.len(), trunc_envs[k % trunc_envs.len()])
+				}
+			},
 			Kind::InsnCut(v) => format!("insncut {}", v[i as usize].0),
 			Kind::Seeds(v) => v[i as usize].0.clone(),
 			Kind::Lines { alphabet, min_len, max_len, with_header, .. } => {
@@ -714,7 +1029,7 @@ impl Space {
 				let (pos, v) = faults[i as usize];
 				format!("{}: byte {} {:#04x} -> {:#04x}", self.spec, pos, seed[pos as usize], v)
 			},
-			Kind::Utf8 { seed, entries, repl } => {
+			Kind::Utf8 { seed, entries, repl, .. } => {
 				let (c, r) = (i as usize / repl.len(), i as usize % repl.len());
 				let e = &seed.parsed.map[entries[c] as usize];
 				let old = read_be(&seed.bytes, e) as usize;
@@ -735,7 +1050,11 @@ impl Space {
 				let p = pairs[i as usize];
 				format!("pair-fault:{:?}+{:?}", seed.parsed.map[p.0 as usize].role, seed.parsed.map[p.2 as usize].role)
 			},
-			Kind::Adversaries(v) => v[i as usize].name.split('/').next().unwrap_or("").to_owned(),
+			Kind::Adversaries(v, _) => v[i as usize].name.split('/').next().unwrap_or("").to_owned(),
+			Kind::AttrOps { .. } => "attribute-edit".into(),
+			Kind::Pad { .. } => "padded-cell".into(),
+			Kind::Templates { .. } => "padded-template".into(),
+			Kind::Envs { .. } => "scripted-io".into(),
 			Kind::InsnCut(_) => "instruction-cut".into(),
 			Kind::Seeds(_) => "seed".into(),
 			Kind::Lines { .. } => "line-sequence".into(),
@@ -754,7 +1073,11 @@ impl Space {
 		match &self.kind {
 			Kind::Fields { seed, .. } | Kind::Pairs { seed, .. } => seed.bytes.len() as u64 + 200,
 			Kind::Trunc { seed } | Kind::TextTrunc { seed, .. } => seed.len() as u64 / 2 + 200,
-			Kind::Adversaries(_) => 4_000_000,
+			Kind::Adversaries(_, cost) => *cost,
+			Kind::AttrOps { seed, .. } => seed.bytes.len() as u64 + 400,
+			Kind::Pad { seed, .. } => seed.len() as u64 * 4 + 400,
+			Kind::Templates { .. } => 600,
+			Kind::Envs { seed, .. } => seed.len() as u64 * 2 + 400,
 			Kind::InsnCut(_) => 1_000,
 			Kind::Seeds(_) => 20_000,
 			Kind::Lines { max_len, .. } => if *max_len > 3 { 2_000 } else { 30_000 },
